@@ -30,6 +30,10 @@ pub struct Scenario {
     /// one side's own transport parameters are rewritten on their way into its TLS session (C14)
     #[serde(default)]
     pub tp: Option<TpRewrite>,
+    /// every endpoint starts a 1-RTT key update after this many packets protected with one key (hook
+    /// `aws_s2n_quic_verif`: S2N_QUIC_VERIF_KEY_UPDATE_AFTER); None = the library's behaviour (2^23 - 10 000 packets)
+    #[serde(default)]
+    pub key_update_after: Option<u32>,
 }
 
 /// which side's own transport parameters are rewritten, and how (applied in order to the block the endpoint encoded)
